@@ -32,6 +32,18 @@ CHECKS = {
  "C20": dict(cat="model_checking", ref="DESIGN.md 4 C20", tech="TLA+ swap-list exchange evaluation (See.tla, set-valued on ties) evaluated by TLC on recorded verdicts; TLC-generated exchange constellations; mirror validated against Chess!Mirror",
    text="See.tla computes the set of possible swap-list verdicts (ties between equally valued least attackers are non-deterministic, x-rays arise from geometry). For every non-en-passant capture of generated constellations (batteries, capturing promotions) and walk positions TLC checks colour symmetry (on a mirror it validates itself), the undefended and captured>=capturer clauses, and membership of the engine's verdict in the set.",
    note="Abstractions shared with the engine are stated in See.tla (pins ignored, no promotion during the exchange)."),
+ "C04": dict(cat="model_checking", ref="DESIGN.md 4 C04", tech="TLA+ control skeleton SearchCtl.tla (iterative deepening x aspiration x 8-bit generation, explicit machine-range checks) model-checked with TLC; real searches judged by the TLA+ rule book (Trace_Search.tla)",
+   text="SearchCtl.tla is model-checked for every interleaving of fail-low / fail-high / abort over a boundary-heavy score grid and a generation counter crossing 255 (NoOverflow, window sanity, termination of the aspiration loop). Real searches run in sessions on shared tables (unrelated positions back to back, time and clock limits down to 0 ms, more than 256 searches on one table, score-jump positions, hash 1/2/16 MB) in the checked and the optimised build; TLC judges each: a move came back, it is legal by the rule book, no panic, the run ended.",
+   note="The tree search is abstract in the model. Optimised-build wrap-around is visible only through its consequences."),
+ "C05": dict(cat="model_checking", ref="DESIGN.md 4 C05", tech="TLA+ concurrent model Uci.tla (input thread, search threads, latch, mutex, stop handle) model-checked with TLC incl. liveness; its state graph replayed as forced schedules on the hooked binary; event logs of free-running sessions validated against the model",
+   text="Uci.tla has one action per critical section of the UCI layer; TLC checks deadlock freedom, 'a blocked command always returns' and 'an answerable go is answered' under weak fairness for unbounded command histories of a protocol-conforming GUI. The bounded state graph is dumped, an edge cover of paths computed and every path forced label for label on the real binary through gate/done hooks, with a watchdog for hangs; free-running sessions with random timing are logged at linearization points (sequence numbers under the hook's lock) and must be behaviours of the model.",
+   note="Searches in forced schedules are depth-1 or infinite. Schedules that the code cannot realise are reported as drift after a relaxed re-run shows no hang.", engine="tla-uci"),
+ "C08": dict(cat="model_checking", ref="DESIGN.md 4 C08", tech="TLA+ rule book replays every reported line (Trace_Search.tla): legality move by move, depth sequence, mate announcements verified to end in checkmate; TLC-generated near-mate endings as positions",
+   text="Every info line of every iteration of real searches is replayed by TLC through Chess!Legal / Make; depths must be 1,2,3,... within the limit; a 'mate n' must have exactly the matching number of plies and end with the announced side checkmated by the rule book. Positions: TLC-enumerated elementary endings near mate (searched on fresh tables and after searching a neighbouring position), bench/perft roots, walk positions, move-time limited runs.",
+   note="Quick tier uses the optimised build only; thorough both."),
+ "C09": dict(cat="model_checking", ref="DESIGN.md 4 C09", tech="hook-controlled stop at every poll index k (fault enumeration over poll points) with the outcome judged by the TLA+ rule book and Trace_Search.tla clauses",
+   text="For each (position, limit) the number P of stop-flag loads of the unstopped search is counted through the hook; the search is then run once for every k = 1..P with the flag reading true from the k-th load on, followed by two ordinary searches on the same tables. TLC judges: legal move returned, caller's game untouched, no flag load / larger node count after the observing poll, follow-up searches return legal moves and legal lines.",
+   note="Poll indices are exhaustive per pair up to a cap (40 quick / 200 thorough), both ends sampled beyond. The abstract abort action of SearchCtl.tla covers the design level; a node-level Negamax.tla is a growth item."),
 }
 
 def main():
@@ -70,7 +82,9 @@ def main():
             "add_only": True,
         },
         "engines": [
-            {"name": "tla-game", "path": "/verif/spec", "serves_properties": [p for p in ALL if p in CHECKS],
+            {"name": "tla-uci", "path": "/verif/spec/Uci.tla", "serves_properties": [p for p in ALL if p in CHECKS and CHECKS[p].get("engine") == "tla-uci"],
+             "kind_free_text": "TLA+ model of the concurrent UCI layer; forced-schedule replay on the hooked engine binary (/verif/tools/uci.py) and trace validation of its event logs"},
+            {"name": "tla-game", "path": "/verif/spec", "serves_properties": [p for p in ALL if p in CHECKS and CHECKS[p].get("engine", "tla-game") == "tla-game"],
              "kind_free_text": "explicit TLA+ specifications checked with TLC; bound to the code by trace validation (harness -> ND-JSON -> Trace_*.tla) and by replay of TLC-generated inputs/behaviours (Gen_*.tla -> harness)"},
         ],
         "checks": checks,
